@@ -595,6 +595,8 @@ def simp_compose(e_s, expr):
     for i, arg in enumerate(args[:-1]):
         nxt = args[i + 1]
         if arg.is_mem() and nxt.is_mem():
+            if arg.ptr.size != nxt.ptr.size:
+                continue
             gap = e_s(nxt.ptr - arg.ptr)
             if gap.is_int() and arg.size % 8 == 0 and int(gap) == arg.size // 8:
                 args = args[:i] + [ExprMem(arg.ptr,
